@@ -38,11 +38,9 @@ pub struct Scenario {
     pub scheds: Vec<Sched>,
 }
 
-pub fn litmus() -> &'static Vec<(String, String, Vec<String>)> {
-    use std::sync::OnceLock;
-    static L: OnceLock<Vec<(String, String, Vec<String>)>> = OnceLock::new();
-    L.get_or_init(|| {
-        let v: Value = serde_json::from_str(include_str!("../../../../corpus/c16/litmus.json")).expect("litmus.json parses");
+fn parse_expectations(text: &str) -> Vec<(String, String, Vec<String>)> {
+    {
+        let v: Value = serde_json::from_str(text).expect("expectation file parses");
         v["programs"]
             .as_array()
             .expect("programs")
@@ -55,7 +53,20 @@ pub fn litmus() -> &'static Vec<(String, String, Vec<String>)> {
                 )
             })
             .collect()
-    })
+    }
+}
+
+pub fn litmus() -> &'static Vec<(String, String, Vec<String>)> {
+    use std::sync::OnceLock;
+    static L: OnceLock<Vec<(String, String, Vec<String>)>> = OnceLock::new();
+    L.get_or_init(|| parse_expectations(include_str!("../../../../corpus/c16/litmus.json")))
+}
+
+/// Grammar-generated promise / async programs (tools/gen_c16_programs.py) with committed traces.
+pub fn generated() -> &'static Vec<(String, String, Vec<String>)> {
+    use std::sync::OnceLock;
+    static L: OnceLock<Vec<(String, String, Vec<String>)>> = OnceLock::new();
+    L.get_or_init(|| parse_expectations(include_str!("../../../../corpus/c16/generated.json")))
 }
 
 /// The kernel instantiations that the litmus file contains expectations for.
@@ -95,8 +106,9 @@ pub fn generate(rng: &mut Rng, tier: Tier) -> Value {
             .collect();
         return serde_json::to_value(Scenario { name, parts, expected: None, scheds }).expect("ser");
     }
-    let (name, parts, expected) = if rng.chance(1, 2) {
-        let (n, s, e) = &l[rng.idx(l.len())];
+    let (name, parts, expected) = if rng.chance(3, 5) {
+        let g = generated();
+        let (n, s, e) = if rng.chance(1, 4) { &l[rng.idx(l.len())] } else { &g[rng.idx(g.len())] };
         (n.clone(), vec![s.clone()], Some(e.clone()))
     } else {
         let n = rng.range(1, 3) as usize;
@@ -326,7 +338,7 @@ pub const PROP: Prop = Prop {
     generate,
     execute,
     shrink,
-    rule: "one run = (7 of 10) one program (one of the committed litmus programs with its expected trace, or 1..3 promise/async kernels plus optionally a synchronous one, as one evaluation or split across evaluations with the same drain points) executed synchronously on the real SimpleJobExecutor and under 4 (quick) / 8 (thorough) seeded host schedules: evaluate_async_with_budget with budgets from the Fibonacci grid 1..2^20 or uniform 1..400, polled by the simulator with collections at seeded yields, followed by run_jobs_async polled the same way; or the stub FIFO executor with seeded batch boundaries (0..6 jobs per run_jobs call, called until empty); or (3 of 10) a budget sweep: a synchronous kernel composition or a harvested test group evaluated under 5 (quick) / 10 (thorough) budgets drawn from 1..64 and the Fibonacci grid, each compared with the synchronous evaluation; non-trivial = at least one yield, collection or batch split happened; distinct = distinct (program, schedule list, yields, batch splits)",
+    rule: "one run = (7 of 10) one program (one of 29 hand-written litmus programs or of 1493 grammar-generated promise / async / async-generator programs — 2..5 racing tasks built from then/catch/finally chains, thenables, nested resolution, combinators, async functions, for-await, async generators driven by queued next/return/throw, yield*, promise subclasses, deferred settlement — each with its committed expected trace, or 1..3 promise/async kernels plus optionally a synchronous one, as one evaluation or split across evaluations with the same drain points) executed synchronously on the real SimpleJobExecutor and under 4 (quick) / 8 (thorough) seeded host schedules: evaluate_async_with_budget with budgets from the Fibonacci grid 1..2^20 or uniform 1..400, polled by the simulator with collections at seeded yields, followed by run_jobs_async polled the same way; or the stub FIFO executor with seeded batch boundaries (0..6 jobs per run_jobs call, called until empty); or (3 of 10) a budget sweep: a synchronous kernel composition or a harvested test group evaluated under 5 (quick) / 10 (thorough) budgets drawn from 1..64 and the Fibonacci grid, each compared with the synchronous evaluation; non-trivial = at least one yield, collection or batch split happened; distinct = distinct (program, schedule list, yields, batch splits)",
     real: &["lexer/parser/compiler/VM incl. the budgeted dispatch table", "promise machinery, async functions/generators", "SimpleJobExecutor (behind the Recording shim) in the synchronous and budgeted schedules"],
     stub: &["SimExecutor (host side of the JobExecutor seam: FIFO, scripted batch boundaries)", "Recording shim (re-boxes promise jobs to log enqueue/run)", "SimClock, SimHooks, print native"],
     assumptions: &[
